@@ -14,6 +14,7 @@ RULE = ('trees = everything the three parsers accept from the corpus + generated
         'nodes, unknown cast types, tuples as operands, multi-argument aggregates) x {mysql, postgresql, postgres, sqlite, mssql, oracle, '
         'Snowflake} x {fallback on, off} x {get_string, get_exec_params}; non-trivial = tree SQLAlchemy cannot render, or a CREATE TABLE; '
         'distinct by (statement text, dialect name, flags)')
+RULE += '; also: INSERT rows of mismatched length, placeholders (with alias) in every position, FROM-argument functions, the fallback text itself, the two names of one dialect'
 ASSUMPTIONS = ['"supported dialect names" are the keys of the renderer\'s own table', 'tree mutation is judged on the reflective struct, not on to_tree()']
 BUDGET = {'quick': (16, 240), 'thorough': (16, 1800)}
 NAMES = ['mysql', 'postgresql', 'postgres', 'sqlite', 'mssql', 'oracle', 'Snowflake']
